@@ -53,6 +53,7 @@ fn new_run(prop: &str, tier: Tier) -> Run {
         per_check: Mutex::new(Vec::new()),
         violations: Mutex::new(Vec::new()),
         start: Instant::now(),
+        only: None,
     }
 }
 
@@ -258,7 +259,28 @@ fn replay(defs: &[PropDef], file: &str) -> i32 {
         return 2;
     };
     let tier = if v["tier"].as_str() == Some("thorough") { Tier::Thorough } else { Tier::Quick };
-    let r = new_run(prop, tier);
+    let mut r = new_run(prop, tier);
+    if let Some(s) = v["seed"].as_u64() {
+        r.seed = s;
+    }
+    // Cases of enumerations / bespoke drivers are re-run through the property's
+    // own driver restricted to that item.
+    if v["case"].is_null() || (v["case"].is_object() && v["case"].as_object().unwrap().len() == 1 && v["case"]["index"].is_u64()) {
+        r.only = Some((check.to_string(), v["case"]["index"].as_u64().unwrap_or(0)));
+        (def.run)(&r);
+        let viol = std::mem::take(&mut *r.violations.lock().unwrap());
+        return match viol.first() {
+            None => {
+                println!("REPLAY-OK property={prop} check={check} [{}]", r.profile);
+                0
+            }
+            Some(v) => {
+                println!("VIOLATION property={prop} replay={file}");
+                eprintln!("  check={} signature={} :: {}", v.check, v.fail.sig, v.fail.msg);
+                1
+            }
+        };
+    }
     let result = if let Some(target) = check.strip_prefix("fuzz_") {
         Some(replay_case(&v["case"], |b: &Vec<u8>, _| fuzzsupport::fuzz_entry(target, b)))
     } else {
